@@ -180,3 +180,25 @@ Proof.
   destruct (reconcileB (kv :: src) dst ov sel) as [[r1 u1] c1].
   destruct master as [m|]; reflexivity.
 Qed.
+
+(* --------------------------------------------- faithful store behaviour (known findings) *)
+
+(* MemoryTags.merge_to never touches the master of a bound destination *)
+Theorem merge_memsrc_master_untouched src dst master ov sel :
+  snd (fst (fst (merge_memsrc src dst master ov sel))) = master.
+Proof.
+  unfold merge_memsrc. destruct (reconcileB src dst ov sel) as [[r u] c]. reflexivity.
+Qed.
+
+(* git destination: exactly the entries whose revision is a commit of the repository are kept *)
+Theorem git_store_entries cs d d' kv :
+  stored (DGit cs) d = Some d' -> (In kv d' <-> In kv d /\ git_keeps cs kv = true).
+Proof. cbn [stored]. intros H; inversion H; subst. apply filter_In. Qed.
+
+Theorem git_store_guarded cs d :
+  forallb (git_keeps cs) d = true -> stored (DGit cs) d = Some d.
+Proof.
+  cbn [stored]. intros H. f_equal.
+  induction d as [|kv d IH]; cbn [filter forallb] in *; [reflexivity|].
+  apply andb_prop in H. destruct H as [H1 H2]. rewrite H1, (IH H2). reflexivity.
+Qed.
